@@ -55,7 +55,8 @@ def case(draw, tier="quick"):
             "unknown": draw(st.booleans()), "stages": draw(st.sampled_from([1, 1, 2, 3])),
             "closed": draw(st.booleans()),
             # the separator may also come from the documented setting flumine.config.order_sep (set at run time)
-            "via_config": draw(st.integers(0, 3)) == 0}
+            "via_config": draw(st.integers(0, 3)) == 0,
+            "replaced_twins": draw(st.integers(0, 2)) == 0}
 
 
 def make_orders(strategy, n, sep, market_id="1.100000000"):
@@ -69,13 +70,14 @@ def make_orders(strategy, n, sep, market_id="1.100000000"):
     return out
 
 
-def current_order_resource(ref, bet_id, market_id, sel):
+def current_order_resource(ref, bet_id, market_id, sel, matched=0.0):
     from betfairlightweight.resources.bettingresources import CurrentOrder
 
     return CurrentOrder(
         betId=str(bet_id), marketId=market_id, selectionId=sel, handicap=0, priceSize={"price": 2.0, "size": 2.0},
         bspLiability=0.0, side="BACK", status="EXECUTABLE", persistenceType="LAPSE", orderType="LIMIT",
-        placedDate="2020-01-01T00:00:00.000Z", averagePriceMatched=0.0, sizeMatched=0.0, sizeRemaining=2.0,
+        placedDate="2020-01-01T00:00:00.000Z", averagePriceMatched=2.0 if matched else 0.0, sizeMatched=matched,
+        sizeRemaining=round(2.0 - matched, 2),
         sizeLapsed=0.0, sizeCancelled=0.0, sizeVoided=0.0, regulatorCode="x", customerOrderRef=ref,
         customerStrategyRef="h")
 
@@ -155,6 +157,14 @@ def check(c):
         fw = Flumine(clients.BetfairClient(betting_client=None, username="rt", order_stream=False))
         sample = orders[:: max(1, len(orders) // 40)][:60]
         cos = [current_order_resource(o.customer_order_ref, 1000 + i, o.market_id, o.selection_id) for i, (s, o) in enumerate(sample)]
+        # the exchange keeps the customer reference on the bet that replaces another: some references appear a second
+        # time, under a new bet id and with the exchange state of THAT bet (partly matched)
+        twins = {}
+        if c.get("replaced_twins"):
+            for i, (s, o) in list(enumerate(sample))[:: max(1, len(sample) // 5)][:5]:
+                twins[o.id] = 5000 + i
+                cos.append(current_order_resource(o.customer_order_ref, 5000 + i, o.market_id, o.selection_id, matched=1.5))
+            classes.add("reference-shared-by-a-replaced-bet-and-its-replacement")
         co = type("CO", (), {})()
         co.orders = cos
         co.client = fw.clients.get_default()
@@ -190,6 +200,12 @@ def check(c):
                 #  strategy and the order id are recovered, so the separator is not compared)
                 if a.id != o.id or a.bet_id != str(1000 + i):
                     raise Violation("round-trip-order-changed", (), "%r -> order id %r (bet %s)" % (o.customer_order_ref, a.id, a.bet_id), c)
+                # the order recreated from bet 1000+i carries the exchange state of that bet (nothing matched), not
+                # the state of another bet that shares the reference
+                if a.size_matched != 0.0:
+                    raise Violation("round-trip-state-of-another-bet", ("twin" if o.id in twins else "no-twin",),
+                                    "order recreated from bet %s (nothing matched) reports size_matched %s%s" % (
+                                        1000 + i, a.size_matched, " - the state of bet %s, which shares the reference" % twins[o.id] if o.id in twins else ""), c)
             else:
                 classes.add("unknown-strategy")
                 if a is not None:
